@@ -2,7 +2,8 @@
 C04 — every lvalue designates exactly its object's bytes and bits.
 
 Property theorems only (helper lemmas: Lemmas/BitFieldLemmas.lean, Lemmas/FrameLemmas.lean, Lemmas/AllocaLemmas.lean,
-Lemmas/LvalLemmas.lean, Lemmas/CopyLemmas.lean).
+Lemmas/LvalLemmas.lean, Lemmas/LvalBoundsLemmas.lean, Lemmas/CopyLemmas.lean).  The machine-level half — the same
+instruction lists executed by `X86.run` (Model/X86.lean) — is in Props/C04Machine.lean.
 
 Family 1 — bit-fields.  `bfAssignT` / `bfLoadT` (Model/BitField.lean) are the meaning of the instruction sequences
 chibicc prints for `s.f = v` and for reading `s.f` (the sequences themselves and the arithmetic they print are
@@ -16,6 +17,7 @@ import ChibiVerif.Lemmas.BitFieldLemmas
 import ChibiVerif.Lemmas.FrameLemmas
 import ChibiVerif.Lemmas.AllocaLemmas
 import ChibiVerif.Lemmas.LvalLemmas
+import ChibiVerif.Lemmas.LvalBoundsLemmas
 import ChibiVerif.Lemmas.CopyLemmas
 
 namespace ChibiVerif.Props.C04
@@ -199,6 +201,53 @@ example :
                [⟨8, 8, false, false⟩, ⟨8, 8, false, true⟩, ⟨24, 1, false, true⟩]).stackSize = 48 := by
   decide
 
+/-- **C04 (absolute alignment of automatic objects — what *is* guaranteed).**  At run time %rbp is a multiple of 16
+    (psABI 3.2.2: %rsp + 8 is a multiple of 16 at function entry, the prologue pushes %rbp and copies %rsp) — this is the
+    hypothesis `hrbp`; alignments are powers of two (`hpow`; C11 6.2.8p4).  Then for every function, every list of locals
+    and parameters, every variable `v` with its slot `s` (same position of `fn->locals`):
+    * an object of the frame (a local, or a parameter that arrived in registers — `long double`, over-aligned or not) has
+      an address that is a multiple of `min(v.align, 16)`, and of 16 if it is an array of at least 16 bytes (psABI 3.1.2);
+    * a parameter passed on the stack (`s.stack`, then `v.byStack`) lies at `rbp + 16` or above on an 8-byte boundary;
+    * the lowest address of the frame, `rbp - stack_size` — the initial `alloca_bottom`, the `frameLow` of `C04_alloca` —
+      is a multiple of 16, so every alloca block and every VLA, in every history, is 16-aligned in absolute terms
+      (`C04_alloca` with `frameLow := rbp - stack_size`).
+    For `v.align > 16` the guarantee stops at 16: `Findings.C04_finding_overaligned_sharp` shows that for *every* frame
+    with such an object there is a psABI-conforming %rbp that misaligns it (known finding C04-overaligned-auto). -/
+theorem C04_frame_aligned (body params : List Var) (hwf : ∀ v ∈ body ++ params, 0 ≤ v.size ∧ 0 < v.align)
+    (hpow : ∀ v ∈ body ++ params, ∃ k : Nat, v.align = 2 ^ k) (rbp : Int) (hrbp : rbp % 16 = 0) :
+    (∀ p ∈ (body ++ params).zip (frameSlots body params),
+      p.2.size = p.1.size ∧
+      (p.2.stack = false → (rbp + p.2.off) % min p.1.align 16 = 0 ∧
+         (p.1.isArray = true → 16 ≤ p.1.size → (rbp + p.2.off) % 16 = 0)) ∧
+      (p.2.stack = true → p.1.byStack = true ∧ 16 ≤ p.2.off ∧ (rbp + p.2.off) % 8 = 0)) ∧
+    (rbp - (assignLvarOffsets body params).stackSize) % 16 = 0 := by
+  obtain ⟨_, hss, _, hsl⟩ := C04_frame_disjoint body params hwf
+  refine ⟨?_, by omega⟩
+  intro p hp
+  obtain ⟨hmem, hsz, hal, hst⟩ := frame_zip body params p hp
+  obtain ⟨s1, s2⟩ := hsl p.2 hmem
+  have hv : p.1 ∈ body ++ params := (List.of_mem_zip hp).1
+  obtain ⟨k, hk⟩ := hpow p.1 hv
+  refine ⟨hsz, fun h => ?_, fun h => ?_⟩
+  · obtain ⟨_, _, c3⟩ := s2 h
+    rw [hal h] at c3
+    have hF : p.1.frameAlign = p.1.align ∨ p.1.frameAlign = max 16 p.1.align := by
+      unfold Var.frameAlign localAlign; split <;> simp
+    obtain ⟨a1, a2⟩ := addr_aligned rbp p.2.off p.1.align p.1.frameAlign k hk hF hrbp c3
+    refine ⟨a1, fun harr hsz16 => a2 ?_⟩
+    unfold Var.frameAlign localAlign
+    simp [harr, hsz16]
+  · obtain ⟨c1, c2⟩ := s1 h
+    exact ⟨hst h, c1, by omega⟩
+
+/-- non-vacuity: `void f(long double ld_in_frame?, …)`-like frame — `_Alignas(32) char a; long double b; char c[20]; int d;`
+    with %rbp = 4096·k + 16: `a` is only 16-aligned (alignment 32 is not honoured), everything else is aligned -/
+example :
+    frameSlots [⟨4, 4, false, false⟩, ⟨20, 1, true, false⟩, ⟨16, 16, false, false⟩, ⟨1, 32, false, false⟩] []
+      = [⟨-4, 4, 4, false⟩, ⟨-32, 20, 16, false⟩, ⟨-48, 16, 16, false⟩, ⟨-64, 1, 32, false⟩] ∧
+    ((4112 : Int) + -64) % 32 = 16 ∧ ((4112 : Int) + -64) % 16 = 0 := by
+  decide
+
 end Frame
 
 /-! ## Family 3: alloca blocks and VLAs (builtin_alloca) -/
@@ -308,6 +357,60 @@ theorem C04_vla_size (b : Ty) (n : Nat) (h : (Ty.vla b n).wf = true) : (Ty.vla b
   vlaSizeVal_eq_sizeof b n h
 
 example : (Ty.vla (.vla (.arr (.scalar 4) 3) 5) 7).wf = true ∧ (Ty.vla (.vla (.arr (.scalar 4) 3) 5) 7).vlaSizeVal = 420 := by decide
+
+/-- **C04 (the designated object never leaves its object).**  Take an object at `a` whose type satisfies the layout
+    invariant `fits` (every member, with its size, inside its aggregate: struct_decl / union_decl, C08; unions with all
+    members at 0 and a trailing flexible array member are instances) and any path `a.b[i].c->d …` whose array indices are
+    in range (`pathOk`; indices applied to pointers are not restricted).  Then the address `gen_addr` computes for the
+    elaborated node is the designated one, and the `sizeof` bytes starting there lie inside the *enclosing object*: the
+    root object `[a, a + sizeof)` as long as the path goes through no pointer, afterwards the object the last pointer
+    step led to (`*p` for `p->m`, the element for `p[i]`).  No access through an lvalue path reaches a byte of a
+    neighbouring object. -/
+theorem C04_path_in_bounds (env : Env) (path : List Step) (node : Node) (a : Int)
+    (ha : genAddr env node = .ok a) (hwf : node.ty.allWf = true) (hfit : node.ty.fits = true)
+    (hok : pathOk env a node.ty path = true) (a' : Int) (t' : Ty) (hd : designate env a node.ty path = some (a', t')) :
+    ∃ n', elabPath node path = .ok n' ∧ n'.ty = t' ∧ genAddr env n' = .ok a' ∧
+      (enclosing env a node.ty.sizeof a node.ty path).1 ≤ a' ∧
+      a' + (t'.sizeof : Int) ≤ (enclosing env a node.ty.sizeof a node.ty path).1 + ((enclosing env a node.ty.sizeof a node.ty path).2 : Int) := by
+  have h := C04_member_addr env path node a ha hwf
+  rw [hd] at h
+  obtain ⟨n', h1, h2, h3⟩ := h
+  obtain ⟨b1, b2, _⟩ := designate_bounds env path a node.ty.sizeof a node.ty a' t' (Int.le_refl _) (Int.le_refl _) hfit hok hd
+  exact ⟨n', h1, h2, h3, b1, b2⟩
+
+/-- `s[1].e[2]` of `exTy` (80 bytes at 1000): 4 bytes at 1072, inside `[1000, 1080)`; `s[2]` is out of range -/
+example : exTy.fits = true ∧ pathOk ⟨fun _ => 0⟩ 1000 exTy [.index 1, .dot "e", .index 2] = true ∧
+    (designate ⟨fun _ => 0⟩ 1000 exTy [.index 1, .dot "e", .index 2]).map (fun p => (p.1, p.2.sizeof)) = some (1072, 4) ∧
+    enclosing ⟨fun _ => 0⟩ 1000 exTy.sizeof 1000 exTy [.index 1, .dot "e", .index 2] = (1000, 80) ∧
+    pathOk ⟨fun _ => 0⟩ 1000 exTy [.index 2, .dot "a"] = false := by decide
+
+/-- `struct N { int k; struct N *next; long v[2]; } n` at 500, `n.next` pointing to 9000: `n.next->v[1]` is 8 bytes at
+    9024 inside the pointee `[9000, 9032)` — a pointer step moves the enclosing object -/
+def exList : Ty := .agg 32 (.cons (some "k") 0 (.scalar 4) (.cons (some "next") 8 (.ptr (.agg 32 (.cons (some "k") 0 (.scalar 4)
+  (.cons (some "next") 8 (.ptr (.scalar 1)) (.cons (some "v") 16 (.arr (.scalar 8) 2) .nil))))) (.cons (some "v") 16 (.arr (.scalar 8) 2) .nil)))
+example : (designate ⟨fun _ => 9000⟩ 500 exList [.dot "next", .arrow "v", .index 1]).map (fun p => (p.1, p.2.sizeof)) = some (9024, 8) ∧
+    enclosing ⟨fun _ => 9000⟩ 500 exList.sizeof 500 exList [.dot "next", .arrow "v", .index 1] = (9000, 32) ∧
+    pathOk ⟨fun _ => 9000⟩ 500 exList [.dot "next", .arrow "v", .index 1] = true := by decide
+
+/-- **C04 (address = base + Σ member offsets + Σ index · element size).**  For a path that goes through no pointer
+    (`offsetTerms` is defined: `.name` steps, `[i]` on arrays and VLAs, `->` on a decayed array), with summands `ks` — one
+    member offset per `.name` (already the sum along the anonymous levels), `i * sizeof(element)` per `[i]` — `gen_addr`
+    of the elaborated node computes `a + Σ ks`, whatever the base address `a` and whatever the memory contains, and the
+    root object stays the enclosing object of `C04_path_in_bounds`. -/
+theorem C04_path_offset_sum (env : Env) (path : List Step) (node : Node) (a : Int)
+    (ha : genAddr env node = .ok a) (hwf : node.ty.allWf = true) (ks : List Int) (t' : Ty)
+    (hk : offsetTerms node.ty path = some (ks, t')) :
+    ∃ n', elabPath node path = .ok n' ∧ n'.ty = t' ∧ genAddr env n' = .ok (a + ks.sum) ∧
+      enclosing env a node.ty.sizeof a node.ty path = (a, node.ty.sizeof) := by
+  obtain ⟨d1, d2⟩ := designate_of_offsetTerms env path a node.ty.sizeof a node.ty ks t' hk
+  have h := C04_member_addr env path node a ha hwf
+  rw [d1] at h
+  obtain ⟨n', h1, h2, h3⟩ := h
+  exact ⟨n', h1, h2, h3, d2⟩
+
+/-- `s[1].d`: 40·1 (index) + 16 (offset of `d` through two anonymous levels: 8 + 8 + 0); `s[1].e[2]`: 40 + 24 + 8 -/
+example : (offsetTerms exTy [.index 1, .dot "d"]).map (·.1) = some [40, 16] ∧
+    (offsetTerms exTy [.index 1, .dot "e", .index 2]).map (·.1) = some [40, 24, 8] := by decide
 
 end Lval
 
